@@ -243,6 +243,7 @@ class Consumer:
     def __init__(self):
         self.best = {}   # prefix -> ident or None
         self.all = {}    # prefix -> {lid: ident}
+        self.rank = {}   # prefix -> [lid, ...] in the order of the last notification an add-path consumer processed
 
     def feed(self, n):
         p = n["p"]
@@ -258,6 +259,7 @@ class Consumer:
                 else:
                     new[lid] = cur[lid]
             self.all[p] = new
+            self.rank[p] = [x["lid"] for x in n["paths"]]
 
 
 def compare_step(cfg, model_post, model_res, real, consumer, pre_ids, findings, op_kind=None):
@@ -378,6 +380,10 @@ def compare_step(cfg, model_post, model_res, real, consumer, pre_ids, findings, 
             if consumer.all.get(p, {}) != want_all:
                 bad.append(("c06.fold_all", {"prefix": p, "consumer": consumer.all.get(p, {}), "rib": want_all,
                                              "why": "a consumer skipping !any_changed notifications holds a wrong add-path set"}))
+            elif consumer.rank.get(p, []) != [x["lid"] for x in r_list]:
+                # an add-path neighbour with a send-max window is sent the first N of this order
+                bad.append(("c06.fold_rank", {"prefix": p, "consumer": consumer.rank.get(p, []), "rib": [x["lid"] for x in r_list],
+                                              "why": "the ranking changed without a notification: an add-path consumer holds the old order"}))
     if op_kind == "enddef":
         seen_p = [n["p"] for n in out["notifs"]]
         for p in cfg.prefixes:
